@@ -1,1 +1,159 @@
-import Simfile.Model.Objects
+/-
+C01: an SM simfile object in the domain `DomSM` survives serialize → parse unchanged.
+-/
+import Simfile.Model.Msd
+import Simfile.Lemmas.ObjectsO
+namespace Simfile.C01
+open Simfile Simfile.O
+
+/-- an SM chart as the library builds them: the six fields of `SM_CHART_PROPERTIES` in order, each a
+stripped string; `extradata` absent or non-empty -/
+structure DomSMChart (c : SMChart) : Prop where
+  keys : c.fields.keys = T.smChartProperties
+  vals : ∀ kv ∈ c.fields, ∃ v, kv.2 = some v ∧ strip v = v
+  extra : c.extradata = none ∨ ∃ l, c.extradata = some l ∧ l ≠ []
+
+/-- the SM simfile objects of the round-trip property: distinct upper-case keys other than NOTES
+(any values, `none` included), charts in `DomSMChart` -/
+structure DomSM (s : SMSimfile) : Prop where
+  wf : s.props.WF
+  upper : ∀ k ∈ s.props.keys, upper k = k
+  notNotes : ∀ k ∈ s.props.keys, k ≠ kNOTES
+  charts : ∀ c ∈ s.charts, DomSMChart c
+
+/-- 5. a multi-value property is written as its ':'-split components, none of which contains ':',
+and joining them gives the value back -/
+theorem multi_value_components (k v : Str) (h : isMulti k = true) :
+    (valueParam k (some v)).comps = k :: splitOn ':' v ∧ (∀ c ∈ splitOn ':' v, ':' ∉ c) ∧
+      joinWith [':'] (splitOn ':' v) = v :=
+  ⟨valueParam_multi k v h, splitOn_no_sep ':' v, joinWith_splitOn ':' v⟩
+
+/-- 1. loading the parameters of the serialized simfile gives the simfile back, structurally -/
+theorem roundtrip_params (s : SMSimfile) (h : DomSM s) : loadSM (paramsOf (serSM s)) = .ok s := by
+  rw [loadSM_closed, paramsOf_serSM, any_badChart_ser _ _ h.upper h.notNotes,
+    filter_nonnotes_ser _ _ h.upper h.notNotes, filter_notes_ser _ _ h.upper h.notNotes,
+    map_kvOf_itemParam _ h.upper, setAll_rebuild_nil _ h.wf]
+  have hc : (s.charts.map smChartParam).map (fun p => smChartOf p.comps.tail) = s.charts := by
+    rw [List.map_map]
+    conv => rhs; rw [← List.map_id s.charts]
+    apply List.map_congr_left
+    intro c hc
+    have := h.charts c hc
+    exact smChartOf_smChartParam c this.keys this.vals this.extra
+  rw [hc]; rfl
+
+/-- the texts between the parameters of a serialized SM simfile are blank -/
+theorem texts_blank (s : SMSimfile) : ∀ t, Item.text t ∈ serSM s → isBlank t = true := by
+  intro t ht; rw [text_mem_serSM s t ht]; exact isBlank_nl
+
+/-- 2. the round trip through text, for any tokenizer satisfying the contract -/
+theorem roundtrip (M : Msd) (hM : M.Contract) (s : SMSimfile) (h : DomSM s)
+    (hs : safeDoc (serSM s) = true) (strict : Bool) :
+    (M.tokenize strict (M.renderDoc (serSM s))).bind loadSM = .ok s := by
+  rw [hM.roundtrip (serSM s) strict (texts_blank s) hs]
+  exact roundtrip_params s h
+
+/-- serializing the reloaded object gives the same items -/
+theorem reserialize_stable (M : Msd) (hM : M.Contract) (s : SMSimfile) (h : DomSM s)
+    (hs : safeDoc (serSM s) = true) (strict : Bool) :
+    ((M.tokenize strict (M.renderDoc (serSM s))).bind loadSM).map serSM = .ok (serSM s) := by
+  rw [roundtrip M hM s h hs strict]; rfl
+
+/-- 3. content detection sees an SM file unless the first property is VERSION -/
+theorem detected_as_sm (s : SMSimfile) (h : DomSM s) (hv : s.props.keys.head? ≠ some kVERSION) :
+    firstKeyIsVersion (paramsOf (serSM s)) = false := by
+  rw [paramsOf_serSM]
+  obtain ⟨props, charts⟩ := s
+  cases props with
+  | nil =>
+    cases charts with
+    | nil => rfl
+    | cons c cs => simp only [List.map_nil, List.nil_append, List.map_cons, firstKeyIsVersion,
+                     smChartParam_key, upper_kNOTES]; decide
+  | cons kv d =>
+    simp only [List.map_cons, List.cons_append, firstKeyIsVersion, itemParam, valueParam_key]
+    have hk : kv.1 ∈ Dict.keys (kv :: d) := by simp [Dict.keys]
+    rw [h.upper _ hk]
+    simp only [Dict.keys, List.map_cons, List.head?_cons] at hv
+    exact decide_eq_false (fun e => hv (by rw [e]))
+
+/-- 4a. the NOTES parameters of the serialized simfile are the chart parameters, in order -/
+theorem chart_params (s : SMSimfile) (h : DomSM s) :
+    (paramsOf (serSM s)).filter (fun p => decide (p.key = kNOTES)) = s.charts.map smChartParam := by
+  rw [paramsOf_serSM]
+  have hf : ∀ p ∈ s.props.map itemParam ++ s.charts.map smChartParam,
+      decide (p.key = kNOTES) = isNotes p := by
+    intro p hp
+    rcases List.mem_append.mp hp with hp | hp
+    · obtain ⟨kv, hkv, rfl⟩ := List.mem_map.mp hp
+      have hk : kv.1 ∈ s.props.keys := List.mem_map.mpr ⟨kv, hkv, rfl⟩
+      rw [isNotes_itemParam kv (h.upper _ hk) (h.notNotes _ hk)]
+      unfold itemParam; rw [valueParam_key]
+      exact decide_eq_false (h.notNotes _ hk)
+    · obtain ⟨c, _, rfl⟩ := List.mem_map.mp hp
+      rw [isNotes_smChartParam]; rfl
+  rw [List.filter_congr hf, filter_notes_ser _ _ h.upper h.notNotes]
+
+/-- 4b. components 1…6 of a chart parameter strip to the six field values in `T.smChartProperties`
+order; the remaining components are `extradata` -/
+theorem chart_param_shape (c : SMChart) (h : DomSMChart c) :
+    ((smChartParam c).comps.tail.take 6).map (fun x => some (some (strip x)))
+        = T.smChartProperties.map c.fields.get? ∧
+    (smChartParam c).comps.tail.drop 6 = c.extradata.getD [] ∧
+    (smChartParam c).key = kNOTES := by
+  obtain ⟨f, e⟩ := c
+  obtain ⟨v1, v2, v3, v4, v5, v6, rfl, s1, s2, s3, s4, s5, s6⟩ := fields_shape' f h.keys h.vals
+  rw [smChartParam_shape]
+  refine ⟨?_, rfl, rfl⟩
+  simp only [List.cons_append, List.nil_append, List.tail_cons, List.take_succ_cons, List.take_zero,
+    List.map_cons, List.map_nil]
+  rw [strip_smIndent _ s1, strip_smIndent _ s2, strip_smIndent _ s3, strip_smIndent _ s4,
+    strip_smIndent _ s5, strip_nl_nl _ s6]
+  simp [T.smChartProperties, Dict.get?, List.lookup]
+
+/-! ### non-vacuity -/
+
+instance (d : Dict) : Decidable d.WF := inferInstanceAs (Decidable (List.Nodup _))
+instance (c : SMChart) : Decidable (DomSMChart c) :=
+  decidable_of_iff (c.fields.keys = T.smChartProperties ∧
+    (∀ kv ∈ c.fields, ∃ v, kv.2 = some v ∧ strip v = v) ∧
+    (c.extradata = none ∨ ∃ l, c.extradata = some l ∧ l ≠ []))
+    ⟨fun ⟨a, b, c⟩ => ⟨a, b, c⟩, fun ⟨a, b, c⟩ => ⟨a, b, c⟩⟩
+instance (s : SMSimfile) : Decidable (DomSM s) :=
+  decidable_of_iff (s.props.WF ∧ (∀ k ∈ s.props.keys, Simfile.upper k = k) ∧
+    (∀ k ∈ s.props.keys, k ≠ kNOTES) ∧ (∀ c ∈ s.charts, DomSMChart c))
+    ⟨fun ⟨a, b, c, d⟩ => ⟨a, b, c, d⟩, fun ⟨a, b, c, d⟩ => ⟨a, b, c, d⟩⟩
+
+/-- the blank SM simfile of the library with one blank chart -/
+def blankSM : SMSimfile := ⟨T.blankSMSimfile, [⟨T.blankSMChart, T.blankSMChartExtra⟩]⟩
+
+example : DomSM blankSM := by decide +kernel
+example : safeDoc (serSM blankSM) = true := by decide +kernel
+example : loadSM (paramsOf (serSM blankSM)) = .ok blankSM := roundtrip_params _ (by decide +kernel)
+
+/-- values with ':', ';', '\\', "//", line breaks and `none`; a multi-value key; a chart whose field
+values contain ':' and which carries extradata (one component empty) -/
+def trickySM : SMSimfile :=
+  ⟨[("TITLE".toList, some "a:b;c\\d//e\n f\r\n".toList), ("SUBTITLE".toList, none),
+    ("ATTACKS".toList, some "TIME=1:END=2::MODS=x;y".toList), ("DISPLAYBPM".toList, some "1:2".toList),
+    ("ARTIST".toList, some [])],
+   [⟨[("STEPSTYPE".toList, some "dance-single".toList), ("DESCRIPTION".toList, some "a:b\\;//".toList),
+      ("DIFFICULTY".toList, some "Hard".toList), ("METER".toList, some []),
+      ("RADARVALUES".toList, some "0,0".toList), ("NOTES".toList, some "0000\n,\n0000".toList)],
+     some ["extra".toList, [], "x:y".toList]⟩,
+    ⟨T.blankSMChart, none⟩]⟩
+
+example : DomSM trickySM := by decide +kernel
+example : safeDoc (serSM trickySM) = true := by decide +kernel
+example : loadSM (paramsOf (serSM trickySM)) = .ok trickySM := roundtrip_params _ (by decide +kernel)
+example : trickySM.props.keys.head? ≠ some kVERSION := by decide
+
+/-- the chart conditions of `DomSM` cannot be dropped: empty extradata comes back as `none`, an
+unstripped field value comes back stripped -/
+example : loadSM (paramsOf (serSM ⟨[], [⟨T.blankSMChart, some []⟩]⟩)) = .ok ⟨[], [⟨T.blankSMChart, none⟩]⟩ := by
+  decide +kernel
+example : loadSM (paramsOf (serSM ⟨[], [⟨T.blankSMChart.map (fun kv => (kv.1, some " x".toList)), none⟩]⟩)) =
+    .ok ⟨[], [⟨T.blankSMChart.map (fun kv => (kv.1, some "x".toList)), none⟩]⟩ := by
+  decide +kernel
+
+end Simfile.C01
